@@ -373,6 +373,24 @@ def c01_narrow_offset_overflow():
     return a == b, f"readrange(3, uint8 offsets [254, 253]) = {a}; same offsets as int64 = {b}"
 
 
+def c10_trainer_update_applies_updaters():
+    """C10: CellTrainer.update() applies every registered cell's updater once (also when two cells share an updater)."""
+    conn = neural.LinearDense((1,), (1,), 1.0, synapse=neural.DeltaCurrent.partialconstructor(1.0))
+    neu = neural.LIF((1,), 1.0, rest_v=-60.0, reset_v=-65.0, thresh_v=-50.0, refrac_t=1.0, time_constant=20.0)
+    lay = neural.Serial(conn, neu)
+    conn.updater = conn.defaultupdater()
+    tr = learn.STDP(1.0, -0.5, 20.0, 15.0)
+    tr.register_cell("c", lay.cell)
+    w0 = float(conn.weight.sum())
+    conn.updater.weight = (torch.full_like(conn.weight, 0.25), None)
+    try:
+        tr.update()
+    except Exception as e:
+        return False, f"trainer.update() raised {type(e).__name__}: {e}"
+    w1 = float(conn.weight.sum())
+    return abs(w1 - (w0 + 0.25)) < 1e-6, f"weight {w0} -> {w1} after trainer.update() with a pending +0.25"
+
+
 def c20_lognormal_logcdf():
     """C20: log-CDF equals log of the CDF."""
     try:
